@@ -26,10 +26,311 @@ Definition item_ok (fs : nat) (i : item) : bool :=
   | IFrame b => Nat.eqb (length b) fs && negb (bytes_eqb (firstn PROBE b) MARKER)
   end.
 
+
+(* ================= helper lemmas ================= *)
+
+(* ---- flat (unchunked) versions of the primitives ---- *)
+Definition take_f (n : nat) (b : bytes) : option (bytes * bytes) :=
+  if Nat.ltb (length b) n then None else Some (firstn n b, skipn n b).
+
+Definition flat (r : option (bytes * list bytes)) : option (bytes * bytes) :=
+  match r with Some (h, rest) => Some (h, concat rest) | None => None end.
+
+Lemma take_f_app_lt : forall n c b, (length c < n)%nat ->
+  take_f n (c ++ b) =
+  match take_f (n - length c) b with Some (h, rest) => Some (c ++ h, rest) | None => None end.
+Proof.
+  intros n c b H. unfold take_f. rewrite app_length.
+  destruct (Nat.ltb_spec (length c + length b) n) as [H1|H1];
+    destruct (Nat.ltb_spec (length b) (n - length c)) as [H2|H2]; try lia; try reflexivity.
+  rewrite firstn_app, skipn_app. rewrite firstn_all2 by lia. rewrite skipn_all2 by lia.
+  reflexivity.
+Qed.
+
+Lemma take_f_app_ge : forall n c b, (n <= length c)%nat ->
+  take_f n (c ++ b) = Some (firstn n c, skipn n c ++ b).
+Proof.
+  intros n c b H. unfold take_f. rewrite app_length.
+  destruct (Nat.ltb_spec (length c + length b) n) as [H1|H1]; [lia|].
+  rewrite firstn_app, skipn_app.
+  replace (n - length c)%nat with 0%nat by lia.
+  cbn [firstn skipn]. rewrite app_nil_r. reflexivity.
+Qed.
+
+Lemma take_f_app_exact : forall n a b, length a = n -> take_f n (a ++ b) = Some (a, b).
+Proof.
+  intros n a b H. rewrite take_f_app_ge by lia.
+  rewrite firstn_all2 by lia. rewrite skipn_all2 by lia. reflexivity.
+Qed.
+
+Lemma take_c_flat : forall cs n, flat (take_c n cs) = take_f n (concat cs).
+Proof.
+  induction cs as [|c r IH]; intros n.
+  - destruct n; reflexivity.
+  - destruct n as [|n]; [reflexivity|].
+    cbn [take_c concat].
+    destruct (Nat.ltb_spec (length c) (S n)) as [H|H].
+    + rewrite take_f_app_lt by exact H. rewrite <- IH.
+      destruct (take_c (S n - length c) r) as [[h rest]|]; reflexivity.
+    + rewrite take_f_app_ge by lia. reflexivity.
+Qed.
+
+Lemma line_in_app : forall a b,
+  line_in (a ++ b) =
+  match line_in a with
+  | Some (l, r) => Some (l, r ++ b)
+  | None => match line_in b with Some (l, r) => Some (a ++ l, r) | None => None end
+  end.
+Proof.
+  induction a as [|x a IH]; intros b.
+  - cbn [app line_in]. destruct (line_in b) as [[l r]|]; reflexivity.
+  - cbn [app line_in]. destruct (x =? NL); [reflexivity|].
+    rewrite IH. destruct (line_in a) as [[l r]|]; [reflexivity|].
+    destruct (line_in b) as [[l r]|]; reflexivity.
+Qed.
+
+Lemma line_c_flat : forall cs, flat (line_c cs) = line_in (concat cs).
+Proof.
+  induction cs as [|c r IH]; [reflexivity|].
+  cbn [line_c concat]. rewrite line_in_app.
+  destruct (line_in c) as [[l rest]|]; [reflexivity|].
+  rewrite <- IH. destruct (line_c r) as [[l rest]|]; reflexivity.
+Qed.
+
+Fixpoint header_f (fuel : nat) (b : bytes) (acc : bytes) : option (bytes * bytes) :=
+  match fuel with
+  | O => None
+  | S k =>
+    match line_in b with
+    | None => None
+    | Some (l, rest) => if is_blank l then Some (acc, rest) else header_f k rest (acc ++ l)
+    end
+  end.
+
+Lemma header_c_flat : forall fuel cs acc,
+  flat (header_c fuel cs acc) = header_f fuel (concat cs) acc.
+Proof.
+  induction fuel as [|k IH]; intros cs acc; [reflexivity|].
+  cbn [header_c header_f]. rewrite <- line_c_flat.
+  destruct (line_c cs) as [[l rest]|]; [|reflexivity].
+  cbn [flat]. destruct (is_blank l); [reflexivity|]. apply IH.
+Qed.
+
+Fixpoint frames_f (fuel : nat) (frame_size : nat) (b : bytes) : list item :=
+  match fuel with
+  | O => []
+  | S k =>
+    match take_f PROBE b with
+    | None => []
+    | Some (p, rest) =>
+      if bytes_eqb p MARKER then IClear :: frames_f k frame_size rest
+      else
+        match take_f (frame_size - PROBE) rest with
+        | None => []
+        | Some (q, rest') => IFrame (p ++ q) :: frames_f k frame_size rest'
+        end
+    end
+  end.
+
+Lemma frames_c_flat : forall fuel fs cs, frames_c fuel fs cs = frames_f fuel fs (concat cs).
+Proof.
+  induction fuel as [|k IH]; intros fs cs; [reflexivity|].
+  cbn [frames_c frames_f]. rewrite <- take_c_flat.
+  destruct (take_c PROBE cs) as [[p rest]|]; [|reflexivity].
+  cbn [flat]. destruct (bytes_eqb p MARKER).
+  - rewrite IH. reflexivity.
+  - rewrite <- take_c_flat.
+    destruct (take_c (fs - PROBE) rest) as [[q rest']|]; [|reflexivity].
+    cbn [flat]. rewrite IH. reflexivity.
+Qed.
+
+Definition run_f (frame_size : nat) (b : bytes) : conn_result :=
+  match header_f (S (length b)) b [] with
+  | None => mkCR None []
+  | Some (h, rest) => mkCR (Some h) (frames_f (S (length rest)) frame_size rest)
+  end.
+
+Lemma run_conn_flat : forall fs cs, run_conn fs cs = run_f fs (concat cs).
+Proof.
+  intros fs cs. unfold run_conn, run_f, total_len.
+  rewrite <- header_c_flat.
+  destruct (header_c (S (length (concat cs))) cs []) as [[h rest]|]; [|reflexivity].
+  cbn [flat]. rewrite frames_c_flat. reflexivity.
+Qed.
+
+(* ---- lines ---- *)
+Lemma line_in_some : forall b l rest, line_in b = Some (l, rest) -> b = l ++ rest /\ l <> [].
+Proof.
+  induction b as [|x b IH]; intros l rest H; [discriminate|].
+  cbn [line_in] in H. destruct (x =? NL).
+  - inversion H; subst. split; [reflexivity|discriminate].
+  - destruct (line_in b) as [[l' rest']|]; [|discriminate].
+    inversion H; subst. destruct (IH l' rest eq_refl) as [E _]. subst b.
+    split; [reflexivity|discriminate].
+Qed.
+
+Lemma line_in_none : forall b, line_in b = None -> ~ In NL b.
+Proof.
+  induction b as [|x b IH]; intros H Hin; [exact Hin|].
+  cbn [line_in] in H. destruct (Z.eqb_spec x NL) as [E|E]; [discriminate|].
+  destruct (line_in b) as [[l' rest']|]; [discriminate|].
+  destruct Hin as [Hin|Hin]; [congruence|]. exact (IH eq_refl Hin).
+Qed.
+
+Lemma lines_of_aux_some : forall b cur l rest,
+  line_in b = Some (l, rest) -> lines_of_aux cur b = (cur ++ l) :: lines_of_aux [] rest.
+Proof.
+  induction b as [|x b IH]; intros cur l rest H; [discriminate|].
+  cbn [line_in] in H. cbn [lines_of_aux]. destruct (x =? NL).
+  - inversion H; subst. reflexivity.
+  - destruct (line_in b) as [[l' rest']|]; [|discriminate].
+    inversion H; subst. rewrite (IH (cur ++ [x]) l' rest eq_refl).
+    rewrite <- app_assoc. reflexivity.
+Qed.
+
+Definition ends_ok (h : bytes) : bool := match rev h with [] => true | x :: _ => x =? NL end.
+
+Lemma ends_ok_app_r : forall l rest, ends_ok (l ++ rest) = true -> ends_ok rest = true.
+Proof.
+  intros l rest. unfold ends_ok. rewrite rev_app_distr.
+  destruct (rev rest); [reflexivity|]. cbn [app]. exact (fun H => H).
+Qed.
+
+Lemma ends_ok_in : forall h, ends_ok h = true -> h <> [] -> In NL h.
+Proof.
+  intros h H Hne. unfold ends_ok in H. destruct (rev h) as [|x t] eqn:E.
+  - exfalso. apply Hne. rewrite <- (rev_involutive h), E. reflexivity.
+  - apply Z.eqb_eq in H. subst x. rewrite <- (rev_involutive h), E. cbn [rev].
+    apply in_or_app. right. left. reflexivity.
+Qed.
+
+Definition nonblank (l : bytes) : bool := negb (is_blank l).
+
+Lemma header_step : forall h, ends_ok h = true -> h <> [] ->
+  exists l rest, line_in h = Some (l, rest) /\ h = l ++ rest /\ l <> [] /\
+                 lines_of h = l :: lines_of rest /\ ends_ok rest = true.
+Proof.
+  intros h He Hne. destruct (line_in h) as [[l rest]|] eqn:E.
+  - destruct (line_in_some _ _ _ E) as [Hh Hl]. exists l, rest.
+    split; [reflexivity|]. split; [exact Hh|]. split; [exact Hl|]. split.
+    + unfold lines_of. rewrite (lines_of_aux_some h [] l rest E). reflexivity.
+    + subst h. exact (ends_ok_app_r _ _ He).
+  - exfalso. exact (line_in_none _ E (ends_ok_in _ He Hne)).
+Qed.
+
+Lemma nil_or_not : forall (h : bytes), h = [] \/ h <> [].
+Proof. destruct h; [left; reflexivity|right; discriminate]. Qed.
+
+Lemma header_f_ok : forall fuel h acc tl,
+  (length h < fuel)%nat -> forallb nonblank (lines_of h) = true -> ends_ok h = true ->
+  header_f fuel (h ++ NL :: tl) acc = Some (acc ++ h, tl).
+Proof.
+  induction fuel as [|k IH]; intros h acc tl Hlen Hnb He; [lia|].
+  destruct (nil_or_not h) as [Hh|Hh].
+  - subst h. rewrite app_nil_r. reflexivity.
+  - destruct (header_step h He Hh) as (l & rest & E & Hsplit & Hl & Hlines & He').
+    cbn [header_f]. rewrite line_in_app, E.
+    rewrite Hlines in Hnb. cbn [forallb] in Hnb. apply andb_true_iff in Hnb.
+    destruct Hnb as [Hb Hnb]. unfold nonblank in Hb. apply negb_true_iff in Hb. rewrite Hb.
+    rewrite IH; [ | | exact Hnb | exact He'].
+    + subst h. rewrite app_assoc. reflexivity.
+    + subst h. rewrite app_length in Hlen. destruct l; [congruence|]. cbn [length] in Hlen. lia.
+Qed.
+
+Lemma header_f_trunc : forall fuel h p q acc,
+  forallb nonblank (lines_of h) = true -> ends_ok h = true ->
+  h ++ [NL] = p ++ q -> q <> [] -> header_f fuel p acc = None.
+Proof.
+  induction fuel as [|k IH]; intros h p q acc Hnb He Heq Hq; [reflexivity|].
+  cbn [header_f]. destruct (line_in p) as [[l rest]|] eqn:E; [|reflexivity].
+  assert (Hpq : line_in (p ++ q) = Some (l, rest ++ q)) by (rewrite line_in_app, E; reflexivity).
+  rewrite <- Heq in Hpq.
+  destruct (nil_or_not h) as [Hh|Hh].
+  - subst h. cbn in Hpq. inversion Hpq as [[Hl Hr]]. symmetry in Hr.
+    apply app_eq_nil in Hr. destruct Hr as [_ Hr]. contradiction.
+  - destruct (header_step h He Hh) as (l' & rest' & E' & Hsplit & Hl & Hlines & He').
+    rewrite line_in_app, E' in Hpq. inversion Hpq as [[Hl' Hr]]. subst l'.
+    rewrite Hlines in Hnb. cbn [forallb] in Hnb. apply andb_true_iff in Hnb.
+    destruct Hnb as [Hb Hnb]. unfold nonblank in Hb. apply negb_true_iff in Hb. rewrite Hb.
+    exact (IH rest' rest q (acc ++ l) Hnb He' Hr Hq).
+Qed.
+
+(* ---- frames ---- *)
+Lemma marker_eqb : bytes_eqb MARKER MARKER = true.
+Proof. reflexivity. Qed.
+
+Lemma marker_len : length MARKER = PROBE.
+Proof. reflexivity. Qed.
+
+Lemma items_len : forall fs items, (5 <= fs)%nat -> forallb (item_ok fs) items = true ->
+  (length items <= length (flat_map enc_item items))%nat.
+Proof.
+  intros fs items Hfs. induction items as [|i items IH]; intros Hok; [cbn; lia|].
+  cbn [forallb] in Hok. apply andb_true_iff in Hok. destruct Hok as [Hi Hok].
+  cbn [flat_map length]. rewrite app_length. specialize (IH Hok).
+  destruct i as [b|]; cbn [enc_item].
+  - cbn [item_ok] in Hi. apply andb_true_iff in Hi. destruct Hi as [Hi _].
+    apply Nat.eqb_eq in Hi. lia.
+  - rewrite marker_len. unfold PROBE. lia.
+Qed.
+
+Lemma frames_f_ok : forall fs items fuel tail,
+  (5 <= fs)%nat -> (length items < fuel)%nat -> forallb (item_ok fs) items = true ->
+  (length tail < fs)%nat -> negb (bytes_eqb (firstn PROBE tail) MARKER) = true ->
+  frames_f fuel fs (flat_map enc_item items ++ tail) = items.
+Proof.
+  intros fs items. induction items as [|i items IH]; intros fuel tail Hfs Hfuel Hok Htl Hmk.
+  - cbn [flat_map app]. destruct fuel as [|k]; [reflexivity|]. cbn [frames_f].
+    unfold take_f at 1. destruct (Nat.ltb_spec (length tail) PROBE) as [H|H]; [reflexivity|].
+    apply negb_true_iff in Hmk. rewrite Hmk.
+    unfold take_f. rewrite skipn_length.
+    destruct (Nat.ltb_spec (length tail - PROBE) (fs - PROBE)) as [H'|H']; [reflexivity|].
+    unfold PROBE in *. lia.
+  - destruct fuel as [|k]; [cbn [length] in Hfuel; lia|].
+    cbn [length] in Hfuel. cbn [forallb] in Hok. apply andb_true_iff in Hok.
+    destruct Hok as [Hi Hok]. cbn [flat_map]. rewrite <- app_assoc. cbn [frames_f].
+    destruct i as [b|]; cbn [enc_item].
+    + cbn [item_ok] in Hi. apply andb_true_iff in Hi. destruct Hi as [Hlen Hnm].
+      apply Nat.eqb_eq in Hlen. apply negb_true_iff in Hnm.
+      rewrite <- (firstn_skipn PROBE b) at 1. rewrite <- app_assoc.
+      rewrite take_f_app_exact by (rewrite firstn_length; unfold PROBE; lia).
+      rewrite Hnm.
+      rewrite take_f_app_exact by (rewrite skipn_length; lia).
+      rewrite firstn_skipn. rewrite IH by (assumption || lia). reflexivity.
+    + rewrite take_f_app_exact by exact marker_len.
+      rewrite marker_eqb. rewrite IH by (assumption || lia). reflexivity.
+Qed.
+
+Lemma header_text_ok_split : forall h, header_text_ok h = true ->
+  forallb nonblank (lines_of h) = true /\ ends_ok h = true.
+Proof.
+  intros h H. unfold header_text_ok in H. apply andb_true_iff in H. exact H.
+Qed.
+
+Lemma roundtrip_gen : forall fs h items tail cs,
+    (5 <= fs)%nat -> header_text_ok h = true -> forallb (item_ok fs) items = true ->
+    (length tail < fs)%nat -> negb (bytes_eqb (firstn PROBE tail) MARKER) = true ->
+    concat cs = h ++ [NL] ++ flat_map enc_item items ++ tail ->
+    run_conn fs cs = mkCR (Some h) items.
+Proof.
+  intros fs h items tail cs Hfs Hh Hok Htl Hmk Hcs.
+  destruct (header_text_ok_split h Hh) as [Hnb He].
+  rewrite run_conn_flat, Hcs. unfold run_f.
+  change ([NL] ++ flat_map enc_item items ++ tail) with (NL :: flat_map enc_item items ++ tail).
+  rewrite header_f_ok; [ | rewrite app_length; lia | exact Hnb | exact He].
+  cbn [app]. f_equal.
+  apply frames_f_ok; try assumption.
+  rewrite app_length. pose proof (items_len fs items Hfs Hok). lia.
+Qed.
+
+(* ================= the theorems ================= *)
+
 (* 1. however the byte stream is split into reads, the result is that of the unsplit stream *)
 Theorem chunking_irrelevant : forall fs cs,
     run_conn fs cs = run_conn fs [concat cs].
-Admitted.
+Proof.
+  intros fs cs. rewrite !run_conn_flat. cbn [concat]. rewrite app_nil_r. reflexivity.
+Qed.
 
 (* 2. round trip: the header text is recovered exactly, nothing beyond the blank line is
    consumed, every frame is delivered once and in order, every marker is a reset *)
@@ -37,7 +338,13 @@ Theorem stream_roundtrip : forall fs h items cs,
     (5 <= fs)%nat -> header_text_ok h = true -> forallb (item_ok fs) items = true ->
     concat cs = h ++ [NL] ++ flat_map enc_item items ->
     run_conn fs cs = mkCR (Some h) items.
-Admitted.
+Proof.
+  intros fs h items cs Hfs Hh Hok Hcs.
+  apply (roundtrip_gen fs h items [] cs Hfs Hh Hok).
+  - cbn [length]. lia.
+  - reflexivity.
+  - rewrite app_nil_r. exact Hcs.
+Qed.
 
 (* a trailing partial frame (connection closed mid-frame) is dropped, everything before it is
    still delivered *)
@@ -46,14 +353,19 @@ Theorem stream_roundtrip_partial : forall fs h items tail cs,
     (length tail < fs)%nat -> negb (bytes_eqb (firstn PROBE tail) MARKER) = true ->
     concat cs = h ++ [NL] ++ flat_map enc_item items ++ tail ->
     run_conn fs cs = mkCR (Some h) items.
-Admitted.
+Proof. exact roundtrip_gen. Qed.
 
 (* 3. a header cut short by the connection closing yields an error, never a description *)
 Theorem truncated_header_errors : forall fs h p q cs,
     header_text_ok h = true -> h ++ [NL] = p ++ q -> q <> [] ->
     concat cs = p ->
     cr_header (run_conn fs cs) = None.
-Admitted.
+Proof.
+  intros fs h p q cs Hh Heq Hq Hcs.
+  destruct (header_text_ok_split h Hh) as [Hnb He].
+  rewrite run_conn_flat, Hcs. unfold run_f.
+  rewrite (header_f_trunc _ h p q [] Hnb He Heq Hq). reflexivity.
+Qed.
 
 (* 5. the marker is in-band: a frame that begins with the bytes "clear" is taken for a marker
    and the stream loses alignment - the guard of item_ok is necessary *)
